@@ -128,7 +128,17 @@ def arithmetic_case(ctx, idx, rng):
         Iloc.A[j] = Iloc.A[j] * np.arange(1, d + 1).reshape(d, 1, 1, 1)          # a charge-neutral diagonal operator on site j
     ac = _state(rng, qd, L)
     ac.A = [np.asarray(t, dtype=complex) for t in ac.A]
+    # nearly cancelling differences (a - a', a' = a with every tensor perturbed at 1e-9 .. 1e-12): the contracted <d|d> is rounding noise of either sign;
+    # scalar functions must leave even such an operand untouched
+    near = []
+    for _k in range(4):
+        a2 = copy.deepcopy(a)
+        eps = float(rng.choice([1e-9, 1e-10, 1e-12]))
+        a2.A = [np.asarray(t, dtype=complex) * (1 + eps * complex(rng.normal(), rng.normal())) for t in a2.A]
+        near.append(a - a2)
     ops = {
+        'norm-of-near-cancelling-difference': (lambda: [ptn.norm(dn) for dn in near], near),
+        'vdot-of-near-cancelling-difference': (lambda: [ptn.vdot(dn, dn) for dn in near], near),
         'mps-add': (lambda: a + b, [a, b]), 'mps-sub': (lambda: a - b, [a, b]), 'mps-add-self': (lambda: a + a, [a]),
         'mpo-add': (lambda: A + B, [A, B]), 'mpo-sub': (lambda: A - B, [A, B]), 'mpo-matmul': (lambda: A @ B, [A, B]), 'mpo-matmul-self': (lambda: A @ A, [A]),
         'apply_operator': (lambda: ptn.apply_operator(A, a), [A, a]),
